@@ -11,6 +11,8 @@ from ..harness import Sub, Violation, run_world
 from ..oracles import globalarr as ga
 
 PROPERTY = "C17"
+HANG_SECONDS = 400.0
+LINE_BUDGET = 1000000000
 RULE = ("(norms) Hypothesis-generated 4-D and 3-D grids with NON-uniform r and v coordinates (so weights vary), uniform "
         "theta and z, the three standard layouts and phi swapper layouts (incl. layouts replicated along one process "
         "direction), generated process grids, real and complex fields, the field == 1: the sum over ranks (one "
